@@ -151,6 +151,16 @@ impl Ctx {
         self.violations.lock().unwrap().values().map(|v| v.0).sum()
     }
 
+    /// Violations recorded so far that no known-findings entry covers.
+    pub fn unlisted_count(&self) -> u64 {
+        self.violations.lock().unwrap().iter().filter(|((c, s, k), _)| self.known_for(c, s, k).is_none()).map(|(_, v)| v.0).sum()
+    }
+
+    /// (clause, site, class, occurrences) of the unlisted violations recorded so far.
+    pub fn candidate_summary(&self) -> Vec<Value> {
+        self.violations.lock().unwrap().iter().filter(|((c, s, k), _)| self.known_for(c, s, k).is_none()).take(20).map(|((c, s, k), v)| json!({"clause": c, "site": s, "class": k, "occurrences": v.0})).collect()
+    }
+
     fn known_for(&self, clause: &str, site: &str, class: &str) -> Option<&Known> {
         self.known.iter().find(|k| {
             k.property == self.id
